@@ -88,6 +88,22 @@ CHECKS = {
             "'every parameter' read as the calculation-relevant ones (StdTypesObs!Relevant); fuse types not covered; quick "
             "samples 12 built-in types per kind, thorough all",
             "TLC-generated library histories and apply configurations replayed; equality decided by TLC", "§4 C25"),
+    "C14": ("model_checking",
+            "Contingency.tla: N-1 analysis as a fold over case outcomes. TLC enumerates every configuration (9 case orders x 64 "
+            "outcome matrices x own-outage value NaN/0 x failing case) and the required extremes / causes / overload flags as "
+            "pure functions; every configuration is executed through the real run_contingency with a stub evaluation "
+            "function that writes exactly the model's numbers, and TLC decides max/min/cause/causes_overloading/N-0/bus "
+            "extremes/written columns/in_service restoration on the returned dict and on net.res_*.",
+            "three parallel lines, loadings {1,3} %, limit 2 %; stub evaluation function (the real runpp path of a contingency "
+            "run is exercised under C08); trafo/trafo3w case lists only in thorough",
+            "TLC-enumerated outcome matrices executed through the real aggregation code; required fold decided by TLC", "§4 C14"),
+    "C15": ("model_checking",
+            "Contingency.tla models the worker pool (Dispatch/Complete in any interleaving, Collect in task order); TLC proves "
+            "the aggregated result schedule-independent and equal to the sequential fold for every schedule; a seeded "
+            "sample of configurations runs under the real multiprocessing pool with n_procs 1..3 and per-task delays that "
+            "realise completion orders TLC explored; TLC compares every key/value with the sequential result.",
+            "completion order is logged, never used for the verdict; cause compared as 'a valid cause' (ties are legitimate)",
+            "TLC-explored worker schedules realised on the real process pool; result equality decided by TLC", "§4 C15"),
 }
 
 NOT_APPLICABLE = {
